@@ -16,7 +16,7 @@ from __future__ import annotations
 
 import ast
 import re
-from typing import Any
+from typing import Any, Optional
 
 from harness.common import TranslateError, ast_digest, src_text
 
@@ -883,10 +883,96 @@ def _kv_default_desc_paths(fn: ast.FunctionDef, body: list[ast.stmt], dvar: str)
     return with_d.pop(), without_d.pop()
 
 
+class _TryIntAsIf(ast.NodeTransformer):
+    """`try: int(X) / except ValueError: A / else: B` (or B as the rest of the try body) is a TEST of X: rewritten to
+    `if __int_accepts__(X): B else: A`, so that the path analysis, the write skeleton and _bare_default_test see a branch whose test
+    is `int() accepts X` instead of failing closed on the try statement."""
+
+    def visit_Try(self, node: ast.Try) -> ast.AST:
+        self.generic_visit(node)
+        b = node.body
+        if (b and isinstance(b[0], ast.Expr) and isinstance(b[0].value, ast.Call) and _is(b[0].value.func, 'int') and len(b[0].value.args) == 1
+                and not b[0].value.keywords and len(node.handlers) == 1 and node.handlers[0].type is not None
+                and any(_is(node.handlers[0].type, t) for t in ('ValueError', '(ValueError, TypeError)', '(TypeError, ValueError)'))
+                and not node.finalbody and (len(b) > 1) != bool(node.orelse)):
+            test = ast.Call(func=ast.Name('__int_accepts__', ast.Load()), args=[b[0].value.args[0]], keywords=[])
+            new = ast.If(test=test, body=list(b[1:]) + list(node.orelse), orelse=list(node.handlers[0].body))
+            return ast.fix_missing_locations(ast.copy_location(new, node))
+        return node
+
+
+def _bare_default_test(fn: ast.FunctionDef) -> tuple[str, str]:
+    """The test under which KVDef.export writes the default WITHOUT quotes (Fmt/FgdBare.v [bare_test]): every `file.write(<colons and
+    blanks> + W)` / f'<colons and blanks>{W}' and the innermost test around it.  Recognised: `all(c in '<chars>' for c in W)`,
+    `set(W) <= set('<chars>')`, `set(W).issubset('<chars>')` -> ('chars', chars); `int()` accepting W (see _TryIntAsIf) -> ('int', '');
+    no such write -> ('chars', ''): nothing is written bare.  Anything else (isdigit, regular expressions, ...) fails closed."""
+    file = fn.args.args[1].arg
+    found: list[tuple[ast.AST, list[tuple[ast.AST, bool]]]] = []
+
+    def is_sep(e: ast.AST) -> bool:
+        return isinstance(e, ast.Constant) and isinstance(e.value, str) and e.value.strip(' :') == '' and ':' in e.value
+
+    def walk(sts: list[ast.stmt], guards: list[tuple[ast.AST, bool]]) -> None:
+        for st in sts:
+            if isinstance(st, ast.If):
+                walk(st.body, guards + [(st.test, True)])
+                walk(st.orelse, guards + [(st.test, False)])
+                continue
+            if isinstance(st, (ast.For, ast.While, ast.With, ast.Try)):
+                for f in ('body', 'orelse', 'finalbody'):
+                    walk(getattr(st, f, []), guards)
+                for h in getattr(st, 'handlers', []):
+                    walk(h.body, guards)
+                continue
+            if isinstance(st, ast.Expr) and _is_call_method(st.value, 'write') and _is(st.value.func.value, file) and len(st.value.args) == 1:  # type: ignore[attr-defined]
+                a = st.value.args[0]  # type: ignore[attr-defined]
+                if isinstance(a, ast.BinOp) and isinstance(a.op, ast.Add) and is_sep(a.left) and not isinstance(a.right, ast.Constant):
+                    found.append((a.right, guards))
+                elif isinstance(a, ast.JoinedStr) and len(a.values) == 2 and is_sep(a.values[0]) and isinstance(a.values[1], ast.FormattedValue):
+                    found.append((a.values[1].value, guards))
+
+    walk(_body(fn), [])
+    out: set[tuple[str, str]] = set()
+    for w, guards in found:
+        if not guards:
+            raise TranslateError('KVDef.export: a default is written without quotes unconditionally')
+        test, pol = guards[-1]
+        while isinstance(test, ast.UnaryOp) and isinstance(test.op, ast.Not):
+            pol, test = not pol, test.operand
+        wd = ast.dump(w)
+        kind: Optional[tuple[str, str]] = None
+        if isinstance(test, ast.Call) and _is(test.func, '__int_accepts__') and ast.dump(test.args[0]) == wd:
+            kind = ('int', '')
+        elif (isinstance(test, ast.Call) and _is(test.func, 'all') and len(test.args) == 1 and isinstance(test.args[0], (ast.GeneratorExp, ast.ListComp))
+              and len(test.args[0].generators) == 1 and not test.args[0].generators[0].ifs and ast.dump(test.args[0].generators[0].iter) == wd):
+            g = test.args[0]
+            e, v = g.elt, g.generators[0].target
+            if (isinstance(e, ast.Compare) and len(e.ops) == 1 and isinstance(e.ops[0], ast.In) and isinstance(v, ast.Name) and _is(e.left, v.id)
+                    and isinstance(e.comparators[0], ast.Constant) and isinstance(e.comparators[0].value, str)):
+                kind = ('chars', e.comparators[0].value)
+        elif (isinstance(test, ast.Compare) and len(test.ops) == 1 and isinstance(test.ops[0], ast.LtE) and isinstance(test.left, ast.Call)
+              and _is(test.left.func, 'set') and len(test.left.args) == 1 and ast.dump(test.left.args[0]) == wd):
+            c = test.comparators[0]
+            if isinstance(c, ast.Call) and _is(c.func, 'set') and len(c.args) == 1 and isinstance(c.args[0], ast.Constant) and isinstance(c.args[0].value, str):
+                kind = ('chars', c.args[0].value)
+        elif (_is_call_method(test, 'issubset') and isinstance(test.func.value, ast.Call) and _is(test.func.value.func, 'set')  # type: ignore[attr-defined]
+              and len(test.func.value.args) == 1 and ast.dump(test.func.value.args[0]) == wd and len(test.args) == 1  # type: ignore[attr-defined]
+              and isinstance(test.args[0], ast.Constant) and isinstance(test.args[0].value, str)):  # type: ignore[attr-defined]
+            kind = ('chars', test.args[0].value)  # type: ignore[attr-defined]
+        if kind is None or not pol:
+            raise TranslateError('KVDef.export: the test under which a default is written without quotes is not recognised: ' + ast.unparse(guards[-1][0])[:100])
+        out.add((kind[0], ''.join(sorted(set(kind[1]), key=kind[1].index))))
+    if len(out) > 1:
+        raise TranslateError(f'KVDef.export: defaults are written without quotes under different tests: {sorted(out)}')
+    return out.pop() if out else ('chars', '')
+
+
 def _text_writers(tree: ast.Module) -> dict:
     """Decisive branches of KVDef.export / EntityDef.export (the model is Fmt/FgdLine.v [line_cfg]) and the write
     skeletons of KVDef.export, IODef.export and EntityDef.export."""
-    kve = _normalise(_method(tree, 'KVDef', 'export'), tree)
+    import copy as _copy
+    kve = _normalise(_TryIntAsIf().visit(_copy.deepcopy(_method(tree, 'KVDef', 'export'))), tree)
+    bare_test = _bare_default_test(kve)
     ioe = _normalise(_method(tree, 'IODef', 'export'), tree)
     ente = _normalise(_method(tree, 'EntityDef', 'export'), tree)
     body = _body(kve)
@@ -936,7 +1022,7 @@ def _text_writers(tree: ast.Module) -> dict:
         raise TranslateError('KVDef.export: `if self._type is not ValueTypes.SPAWNFLAGS: ": " + display name` not recognised')
     if not has_run(sk['IODef.export'], ['if(_.desc){', "w:' : '", "ls:_,_.desc,'\\t'", '}', "w:'\\n'"]):
         raise TranslateError('IODef.export: `if self.desc: " : " + description` then newline not recognised')
-    return dict(bool_fill=bool_fill, colons_with_default=colons_with, colons_without_default=colons_without, res_if_defined=res_defined,
+    return dict(bare_test=bare_test, bool_fill=bool_fill, colons_with_default=colons_with, colons_without_default=colons_without, res_if_defined=res_defined,
                 skeletons=sk)
 
 
@@ -2604,7 +2690,7 @@ def translate() -> tuple[str, dict]:
     ef = dict(db['ef_members'])
     lines = [
         '(* GENERATED by translate/c16_fgd.py from srctools/fgd.py, _engine_db.py, tokenizer.py, const.py. Do not edit. *)',
-        'From Coq Require Import List NArith String.', 'From SV Require Import Fmt.LongString Fmt.FgdLine Fmt.FgdTypeText SM.LazyDbMulti SM.FgdBlocks Fmt.FgdKindKw Fmt.FgdHead SM.FgdCopyShare.',
+        'From Coq Require Import List NArith String.', 'From SV Require Import Fmt.LongString Fmt.FgdLine Fmt.FgdTypeText SM.LazyDbMulti SM.FgdBlocks Fmt.FgdKindKw Fmt.FgdHead SM.FgdCopyShare Fmt.FgdBare.',
         'Import ListNotations.', 'Open Scope string_scope.',
         'Inductive cmp_op := OpGt | OpGe | OpLt | OpLe | OpEq | OpNe.',
         '(* tokenizer.ESCAPES as (symbol, character); characters escape_text() never escapes *)',
@@ -2627,6 +2713,8 @@ def translate() -> tuple[str, dict]:
         f'Definition gen_line_cfg : FgdLine.line_cfg := {{| FgdLine.colons_before_desc_without_default := {tw["colons_without_default"]}; '
         f'FgdLine.bool_default_filled := {_b(tw["bool_fill"])}; FgdLine.res_block_if_defined := {_b(tw["res_if_defined"])} |}}.',
         f'Definition kv_colons_after_default : nat := {tw["colons_with_default"]}.',
+        '(* KVDef.export: the test under which the default is written WITHOUT quotes (Fmt/FgdBare.v) *)',
+        'Definition gen_bare_test : bare_test := ' + ('BIntCall' if tw['bare_test'][0] == 'int' else 'BChars ' + _cstr(tw['bare_test'][1])) + '.',
         '(* KVDef._parse / IODef._parse: how the text between the parentheses becomes the type (Fmt/FgdTypeText.v); VALUE_TYPE_LOOKUP *)',
         'Definition vt_lookup_tab : list (list N * list N) := [' + '; '.join(f'({_cstr(k)}, {_cstr(v)})' for k, v in tt['table']) + '].',
         f'Definition kv_type_prog : tprog := {tt["kv_prog"][1:-1]}.',
